@@ -50,7 +50,9 @@ func (k c07kind) String() string {
 
 func c07alphabet() []c07kind {
 	var out []c07kind
-	shapes := [][]string{{""}, {"g"}, {"h"}, {"g", "g"}, {"g", "h"}, {"", "g"}}
+	// the last shape: a task of group g that took an ungrouped context in during an earlier,
+	// failed execution (the task keeps the group it was created with)
+	shapes := [][]string{{""}, {"g"}, {"h"}, {"g", "g"}, {"g", "h"}, {"", "g"}, {"g", ""}}
 	for _, h := range []string{"A", "B"} {
 		for _, sh := range shapes {
 			out = append(out, c07kind{hook: h, typ: task_metadata.HookRun, groups: sh})
@@ -146,7 +148,7 @@ func c07run(layout []c07kind, exported bool) (sig, what string, outcome string) 
 				bcs = append(bcs, bc)
 				ct.ctxs = append(ct.ctxs, lbl)
 			}
-			bt.WithMetadata(task_metadata.HookMetadata{HookName: k.hook, BindingContext: bcs, MonitorIDs: append([]string{}, k.mon...)})
+			bt.WithMetadata(task_metadata.HookMetadata{HookName: k.hook, Group: k.groups[0], BindingContext: bcs, MonitorIDs: append([]string{}, k.mon...)})
 		}
 		lay = append(lay, ct)
 		real = append(real, bt)
